@@ -78,7 +78,15 @@ def handle (inp out : String) : String :=
           (match ow with
            | "0" :: rest => if rest == [t, ih] then none else some "corrupted-string-accepted-with-different-data"
            | _ => none)
-        | _ => none
+        | _ =>
+          -- whatever is accepted must decode (spec decoder) to exactly 8 + 1 + digest length + 4 bytes
+          (match ow with
+           | "0" :: _ =>
+             let bin := specDecode s
+             let h := Gen.hashLen (bin.getD 8 0).toNat
+             if h == 0 then some "accepted-unknown-algorithm"
+             else if bin.length != 8 + 1 + h + 4 then some "accepted-wrong-total-length" else none
+           | _ => none)
       let cls := match m with | .ok _ => "ok" | .error e => s!"err{e}"
       verdict s!"frompub:{(expect.splitOn ":").head!}:{cls}" ms out spec
     | none => "skip bad-hex"
